@@ -14,8 +14,11 @@
      of each step ([draws]), observed on the wire by the harness;
    - timers (HashMapDelay) are deadlines; [EvTick] at time [now] fires every entry whose deadline
      has passed, in deadline order (ties: insertion order);
-   - the session cache is the recency list of LruTimeCache with its capacity; expiry by age is not
-     part of this model (see Model/Lru.v and DESIGN.md C15). *)
+   - the session cache is the recency list of LruTimeCache with its capacity and its time to live:
+     every session carries the time of its last use ([s_used]); an access ([sess_get] = get_mut) to
+     a session that has been idle for longer than [cfg_session_ttl] removes it and finds nothing.
+     The reading of the clock during a handler call ([Instant::now()] inside LruTimeCache) is the
+     component [cfg_clock] of the environment [config]; [step] and the timers set it. *)
 From Coq Require Import List Arith NArith Bool.
 Import ListNotations.
 Local Open Scope N_scope.
@@ -36,7 +39,9 @@ Definition enr_eqb (a b : enr) : bool :=
   && optN_eqb (e_ip6 a) (e_ip6 b).
 
 (* NodeContact: public key (named by the id it hashes to), socket address, optional record *)
-Record contact := { c_id : id; c_addr : addr; c_enr : option enr }.
+(* [c_ed]: the public key is not a secp256k1 key (e.g. Ed25519): no session keys can be derived
+   for it (crypto::generate_session_keys returns KeyTypeNotSupported) *)
+Record contact := { c_id : id; c_addr : addr; c_enr : option enr; c_ed : bool }.
 Definition c_naddr (c : contact) : naddr := (c_id c, c_addr c).
 
 (* session keys *)
@@ -101,7 +106,8 @@ Inductive hout :=
 | HResponse (na : naddr) (rid : N) (rb : rbody)
 | HWhoAreYou (na : naddr) (n : nonce)
 | HRequestFailed (rid : N) (err : N)
-| HUnverifiable (e : enr) (a : addr) (nid : id).
+| HUnverifiable (e : enr) (a : addr) (nid : id)
+| HExpiredSessions (l : list naddr).
 
 (* RequestError variants the handler produces *)
 Definition ERR_TIMEOUT : N := 0.
@@ -131,7 +137,8 @@ Record session := {
   s_enc : key; s_dec : key;
   s_old : option (key * key);     (* (encryption, decryption) *)
   s_await : option N;             (* awaiting_enr *)
-  s_counter : N
+  s_counter : N;
+  s_used : N                      (* the instant stored with the cache entry: time of the last use *)
 }.
 
 Record chall := { ch_cd : N; ch_enr : option enr }.
@@ -143,6 +150,8 @@ Record config := {
   cfg_timeout : N;
   cfg_listen : list addr;
   cfg_capacity : nat;
+  cfg_session_ttl : N;   (* session_timeout *)
+  cfg_clock : N;         (* the reading of the clock during the current handler call *)
   cfg_grid : N;    (* the harness moves the clock in steps of this size: an expired timer fires at
                       the first multiple of the grid after its deadline (0: at the time of the step) *)
   (* repaired behaviours of the pinned tree, see DESIGN.md section 7 *)
@@ -345,19 +354,47 @@ Definition ar_update_packet (c : config) (h : hstate) (old : nonce) (p : packet)
   end.
 
 (* ---------------------------------------------------------------------------------------- *)
-(* Sessions: LruTimeCache without expiry *)
+(* Sessions: LruTimeCache *)
 
-Definition sess_get (h : hstate) (na : naddr) : hstate * option session :=
+Definition with_clock (c : config) (t : N) : config :=
+  {| cfg_local := cfg_local c; cfg_enr := cfg_enr c; cfg_retries := cfg_retries c; cfg_timeout := cfg_timeout c;
+     cfg_listen := cfg_listen c; cfg_capacity := cfg_capacity c; cfg_session_ttl := cfg_session_ttl c;
+     cfg_clock := t; cfg_grid := cfg_grid c; fix_d1 := fix_d1 c; fix_d2a := fix_d2a c; fix_d2b := fix_d2b c;
+     fix_d6 := fix_d6 c |}.
+
+Definition touch (se : session) (t : N) : session :=
+  {| s_enc := s_enc se; s_dec := s_dec se; s_old := s_old se; s_await := s_await se;
+     s_counter := s_counter se; s_used := t |}.
+
+(* the entry has expired: time + ttl < now *)
+Definition sess_expired (c : config) (se : session) : bool :=
+  N.ltb (s_used se + cfg_session_ttl c) (cfg_clock c).
+
+(* LruTimeCache::get_mut (get delegates to it): an expired entry is removed and not returned; a
+   live one is stamped with the current time and moved to the back *)
+Definition sess_get (c : config) (h : hstate) (na : naddr) : hstate * option session :=
   match alist_get na (sessions h) with
-  | Some s => (set_sessions h (alist_remove na (sessions h) ++ [(na, s)]), Some s)   (* to_back *)
+  | Some s =>
+    if sess_expired c s then (set_sessions h (alist_remove na (sessions h)), None)
+    else
+      let s' := touch s (cfg_clock c) in
+      (set_sessions h (alist_remove na (sessions h) ++ [(na, s')]), Some s')   (* to_back *)
   | None => (h, None)
+  end.
+
+(* LruTimeCache::remove_expired_values: pops from the front while the front entry has expired *)
+Fixpoint drop_expired (c : config) (l : list (naddr * session)) : list naddr * list (naddr * session) :=
+  match l with
+  | (na, se) :: r =>
+    if sess_expired c se then let (ks, r') := drop_expired c r in (na :: ks, r') else ([], l)
+  | [] => ([], [])
   end.
 Definition sess_put (h : hstate) (na : naddr) (s : session) : hstate :=
   (* write back through the &mut reference obtained by get_mut: position unchanged *)
   set_sessions h (alist_set na s (sessions h)).
 Definition sess_insert (c : config) (h : hstate) (na : naddr) (s : session) : hstate :=
   (* LinkedHashMap::insert of an existing key moves it to the back *)
-  let l := alist_remove na (sessions h) ++ [(na, s)] in
+  let l := alist_remove na (sessions h) ++ [(na, touch s (cfg_clock c))] in
   set_sessions h (if Nat.ltb (cfg_capacity c) (length l) then tl l else l).
 Definition sess_remove (h : hstate) (na : naddr) : hstate :=
   set_sessions h (alist_remove na (sessions h)).
@@ -366,7 +403,7 @@ Definition sess_remove (h : hstate) (na : naddr) : hstate :=
 Definition encrypt_message (c : config) (s : st) (na : naddr) (se : session) (m : msg) : st * session * packet :=
   let '((_, r, aad, _), d') := pop_pk (dr s) in
   let cnt := s_counter se + 1 in
-  let se' := {| s_enc := s_enc se; s_dec := s_dec se; s_old := s_old se; s_await := s_await se; s_counter := cnt |} in
+  let se' := {| s_enc := s_enc se; s_dec := s_dec se; s_old := s_old se; s_await := s_await se; s_counter := cnt; s_used := s_used se |} in
   let n := (cnt, r) in
   ({| hs := hs s; dr := d'; outs := outs s |}, se', PMsg (cfg_local c) n aad (CEnc (s_enc se) n m aad)).
 
@@ -379,9 +416,9 @@ Definition decrypt_message (se : session) (n : nonce) (aad : N) (ct : ctext) : s
     | Some (oe, od) =>
       match decrypt od n aad ct with
       | Some m => ({| s_enc := oe; s_dec := od; s_old := Some (s_enc se, s_dec se);
-                      s_await := s_await se; s_counter := s_counter se |}, Some m)
+                      s_await := s_await se; s_counter := s_counter se; s_used := s_used se |}, Some m)
       | None => ({| s_enc := s_enc se; s_dec := s_dec se; s_old := None;
-                    s_await := s_await se; s_counter := s_counter se |}, None)
+                    s_await := s_await se; s_counter := s_counter se; s_used := s_used se |}, None)
       end
     | None => (se, None)
     end
@@ -392,8 +429,8 @@ Definition decrypt_message (se : session) (n : nonce) (aad : N) (ct : ctext) : s
 
 Definition send (s : st) (na : naddr) (p : packet) : st := emit s (OWire na p).
 
-Definition is_awaiting_session (s : st) (na : naddr) : st * bool :=
-  let (h, se) := sess_get (hs s) na in
+Definition is_awaiting_session (c : config) (s : st) (na : naddr) : st * bool :=
+  let (h, se) := sess_get c (hs s) na in
   match se with
   | Some _ => (with_hs s h, false)
   | None =>
@@ -418,11 +455,11 @@ Definition send_request (c : config) (s : st) (ct : contact) (ext : bool) (rid b
   let na := c_naddr ct in
   if existsb (N.eqb (c_addr ct)) (cfg_listen c) then (s, false) else
   let (s1, awaiting) :=
-    if has_challenge (hs s) na then (s, true) else is_awaiting_session s na in
+    if has_challenge (hs s) na then (s, true) else is_awaiting_session c s na in
   if awaiting then
     (with_hs s1 (push_pending (hs s1) na {| pq_contact := ct; pq_ext := ext; pq_rid := rid; pq_body := body |}), true)
   else
-    let (h2, se) := sess_get (hs s1) na in
+    let (h2, se) := sess_get c (hs s1) na in
     let s2 := with_hs s1 h2 in
     let '(s3, pkt, initiating) :=
       match se with
@@ -452,9 +489,19 @@ Definition send_pending_requests (c : config) (s : st) (na : naddr) (now : N) : 
       else if pq_ext q then emit s' (OEvent (HRequestFailed (pq_rid q) ERR_SELF_REQUEST)) else s') l s1
   end.
 
+(* Handler::remove_expired_sessions: the purged keys are reported to the service *)
+Definition remove_expired_sessions (c : config) (s : st) : st :=
+  let (ks, l) := drop_expired c (sessions (hs s)) in
+  match ks with
+  | [] => s
+  | _ :: _ => emit (with_hs s (set_sessions (hs s) l)) (OEvent (HExpiredSessions ks))
+  end.
+
 (* Handler::fail_session *)
 Definition fail_session (c : config) (s : st) (na : naddr) (err : N) (remove_session : bool) : st :=
-  let s1 := if remove_session then with_hs s (sess_remove (hs s) na) else s in
+  let s1 := if remove_session
+            then let s0 := remove_expired_sessions c s in with_hs s0 (sess_remove (hs s0) na)
+            else s in
   let s2 :=
     match alist_get na (pending (hs s1)) with
     | Some l =>
@@ -474,9 +521,9 @@ Definition fail_request (c : config) (s : st) (r : rcall) (err : N) (remove_sess
 
 (* Handler::replay_active_requests *)
 Definition replay_active_requests (c : config) (s : st) (na : naddr) (skip : option nonce) (now : N) : st :=
-  let (h1, se) := sess_get (hs s) na in
+  let (h1, se) := sess_get c (hs s) na in
   match se with
-  | None => s
+  | None => with_hs s h1
   | Some se0 =>
     let reqs := match alist_get na (active h1) with Some l => l | None => [] end in
     let reqs := filter (fun r => match skip with Some n => negb (nonce_eqb (rc_nonce r) n) | None => true end) reqs in
@@ -494,12 +541,13 @@ Definition replay_active_requests (c : config) (s : st) (na : naddr) (skip : opt
 
 (* Handler::new_session *)
 Definition new_session (c : config) (s : st) (na : naddr) (se : session) (skip : option nonce) (now : N) : st :=
-  let (h1, cur) := sess_get (hs s) na in
+  let s := remove_expired_sessions c s in
+  let (h1, cur) := sess_get c (hs s) na in
   match cur with
   | Some cs =>
     (* Session::update *)
     let cs' := {| s_enc := s_enc se; s_dec := s_dec se; s_old := Some (s_enc cs, s_dec cs);
-                  s_await := s_await se; s_counter := s_counter cs |} in
+                  s_await := s_await se; s_counter := s_counter cs; s_used := s_used cs |} in
     let s1 := with_hs s (sess_put h1 na cs') in
     let s2 := replay_active_requests c s1 na skip now in
     if fix_d2a c then send_pending_requests c s2 na now else s2
@@ -529,12 +577,12 @@ Definition handle_request_timeout (c : config) (s : st) (na : naddr) (r : rcall)
 
 (* Handler::send_response *)
 Definition send_response (c : config) (s : st) (na : naddr) (rid : N) (rb : rbody) : st :=
-  let (h1, se) := sess_get (hs s) na in
+  let (h1, se) := sess_get c (hs s) na in
   match se with
   | Some se =>
     let '(s2, se', p) := encrypt_message c (with_hs s h1) na se (MResp rid rb) in
     send (with_hs s2 (sess_put (hs s2) na se')) na p
-  | None => s
+  | None => with_hs s h1
   end.
 
 (* Handler::send_challenge *)
@@ -578,9 +626,9 @@ Definition handle_response (c : config) (s : st) (na : naddr) (rid : N) (rb : rb
 
 (* Handler::handle_message *)
 Definition handle_message (c : config) (s : st) (na : naddr) (n : nonce) (aad : N) (ct : ctext) (now : N) : st :=
-  let (h1, se) := sess_get (hs s) na in
+  let (h1, se) := sess_get c (hs s) na in
   match se with
-  | None => emit s (OEvent (HWhoAreYou na n))
+  | None => emit (with_hs s h1) (OEvent (HWhoAreYou na n))
   | Some se =>
     let s1 := with_hs s h1 in
     let (se', m) := decrypt_message se n aad ct in
@@ -596,7 +644,7 @@ Definition handle_message (c : config) (s : st) (na : naddr) (n : nonce) (aad : 
       | Some arid =>
         if N.eqb rid arid then
           let se'' := {| s_enc := s_enc se'; s_dec := s_dec se'; s_old := s_old se'; s_await := None;
-                         s_counter := s_counter se' |} in
+                         s_counter := s_counter se'; s_used := s_used se' |} in
           let s3 := with_hs s2 (sess_put (hs s2) na se'') in
           let s3 :=
             if fix_d2b c then
@@ -645,7 +693,7 @@ Definition establish (c : config) (remote : id) (ch : chall) (sg : sigt) (eph : 
     if negb eph_ok then EstErr else
     let kd := mk_key eph (cfg_local c) (ch_cd ch) remote (cfg_local c) false in   (* initiator key *)
     let ke := mk_key eph (cfg_local c) (ch_cd ch) remote (cfg_local c) true in    (* recipient key *)
-    EstOk {| s_enc := ke; s_dec := kd; s_old := None; s_await := None; s_counter := 0 |} e
+    EstOk {| s_enc := ke; s_dec := kd; s_old := None; s_await := None; s_counter := 0; s_used := 0 |} e
   end.
 
 Fixpoint chall_get (na : naddr) (l : list (naddr * chall * N)) : option chall :=
@@ -694,11 +742,13 @@ Definition handle_challenge (c : config) (s : st) (src : addr) (n : nonce) (seq 
     | Some (na, r) =>
       if negb (N.eqb (snd na) src) then with_hs s (ar_insert c h1 na r now) else
       let s1 := with_hs s h1 in
-      if rc_hs_sent r then
+      (* a second WHOAREYOU for a request already answered with a handshake, or a contact for whose
+         key no session keys can be derived (Session::encrypt_with_header fails): the request fails *)
+      if rc_hs_sent r || c_ed (rc_contact r) then
         let s2 := if fix_d6 c then remove_expected s1 src else s1 in
         fail_request c s2 r ERR_INVALID_REMOTE_PACKET true
       else
-        (* Session::encrypt_with_header; only Secp256k1 contacts are modelled, so it cannot fail *)
+        (* Session::encrypt_with_header *)
         let ct := rc_contact r in
         let updated := if N.ltb seq (e_seq (cfg_enr c)) then Some (cfg_enr c) else None in
         let '((cn, rr, aad, eph), d') := pop_pk (dr s1) in
@@ -717,7 +767,7 @@ Definition handle_challenge (c : config) (s : st) (src : addr) (n : nonce) (seq 
           let s3 := with_hs s2 (ar_insert c (hs s2) na r' now) in
           let s4 := send s3 na auth in
           let s5 := emit s4 (OEvent (HEstablished e (snd na) (negb (rc_init r)))) in
-          new_session c s5 na {| s_enc := ke; s_dec := kd; s_old := None; s_await := None; s_counter := 0 |}
+          new_session c s5 na {| s_enc := ke; s_dec := kd; s_old := None; s_await := None; s_counter := 0; s_used := 0 |}
             (Some hn) now
         | None =>
           let r' := {| rc_contact := ct; rc_pkt := auth; rc_ext := rc_ext r; rc_rid := rc_rid r;
@@ -729,7 +779,7 @@ Definition handle_challenge (c : config) (s : st) (src : addr) (n : nonce) (seq 
           let s5 := {| hs := hs s4; dr := d''; outs := outs s4 |} in
           (* FINDNODE [0]; its body is interned as 0 by convention *)
           let (s6, _) := send_request c s5 ct false irid 0 now in
-          new_session c s6 na {| s_enc := ke; s_dec := kd; s_old := None; s_await := Some irid; s_counter := 0 |}
+          new_session c s6 na {| s_enc := ke; s_dec := kd; s_old := None; s_await := Some irid; s_counter := 0; s_used := 0 |}
             (Some hn) now
         end
     end
@@ -814,16 +864,17 @@ Fixpoint fire_due (c : config) (s : st) (now : N) (fuel : nat) : st :=
       | _ :: _ :: _ =>
         let (rev_order, d') := pop_rev (dr s) in
         let s' := {| hs := hs s; dr := d'; outs := outs s |} in
-        fire_group c s' (if rev_order then rev g else g) d (fire_time c d now)
-      | _ => fire_group c s g d (fire_time c d now)
+        fire_group (with_clock c (fire_time c d now)) s' (if rev_order then rev g else g) d (fire_time c d now)
+      | _ => fire_group (with_clock c (fire_time c d now)) s g d (fire_time c d now)
       end in
     match r, ch with
     | Some (_, _, d), Some (cna, _, cd) =>
       if req_due && (negb ch_due || N.leb d cd) then fire_due c (fire_req d) now f
-      else if ch_due then fire_due c (fire_challenge c s cna (fire_time c cd now)) now f
+      else if ch_due then fire_due c (fire_challenge (with_clock c (fire_time c cd now)) s cna (fire_time c cd now)) now f
       else s
     | Some (_, _, d), None => if req_due then fire_due c (fire_req d) now f else s
-    | None, Some (cna, _, cd) => if ch_due then fire_due c (fire_challenge c s cna (fire_time c cd now)) now f else s
+    | None, Some (cna, _, cd) =>
+      if ch_due then fire_due c (fire_challenge (with_clock c (fire_time c cd now)) s cna (fire_time c cd now)) now f else s
     | None, None => s
     end
   end.
@@ -840,7 +891,8 @@ Inductive event :=
 
 Definition TICK_FUEL : nat := 64.
 
-Definition step (c : config) (h : hstate) (e : event) (now : N) (d : draws) : hstate * list output :=
+Definition step (c0 : config) (h : hstate) (e : event) (now : N) (d : draws) : hstate * list output :=
+  let c := with_clock c0 now in
   let s0 := fire_due c {| hs := h; dr := d; outs := [] |} now TICK_FUEL in
   let s :=
     match e with
